@@ -181,6 +181,7 @@ fn render(src: &Src, edits: &[Edit], s: usize, e: usize, out: &mut Out, depth: u
 }
 
 // ---------------------------------------------------------------------------------------------- directives
+thread_local! { static INCLUDED: std::cell::RefCell<std::collections::HashSet<std::path::PathBuf>> = std::cell::RefCell::new(std::collections::HashSet::new()); }
 
 #[derive(Default, Debug)]
 struct FnDir {
@@ -272,6 +273,13 @@ fn parse_unit(path: &str) -> (Vec<Piece>, Vec<(String, String)>) {
             let rest = rest.trim();
             if let Some(a) = rest.strip_prefix("include ") {
                 let inc = std::path::Path::new(path).parent().unwrap().join(a.trim());
+                // include-once: preludes include what they need; a file is spliced the first time only
+                let key = std::fs::canonicalize(&inc).unwrap_or_else(|e| bail!("include {}: {}", inc.display(), e));
+                let seen = INCLUDED.with(|s| !s.borrow_mut().insert(key));
+                if seen {
+                    i += 1;
+                    continue;
+                }
                 let (p2, b2) = parse_unit(&inc.to_string_lossy());
                 pieces.extend(p2);
                 bound_map.extend(b2);
@@ -323,7 +331,12 @@ fn parse_unit(path: &str) -> (Vec<Piece>, Vec<(String, String)>) {
                             break;
                         }
                         // single-line directives
-                        if let Some(a) = section.strip_prefix("subst ") {
+                        if let Some(a) = section.strip_prefix("subst-all ") {
+                            let (w, r) = a.trim().split_once(' ').unwrap_or_else(|| bail!("line {}: bad subst-all", sl));
+                            let (o, n) = parse_arrow(r, sl);
+                            fd.substs.push((format!("{}*", w), o, n));
+                            section.clear();
+                        } else if let Some(a) = section.strip_prefix("subst ") {
                             let (w, r) = a.trim().split_once(' ').unwrap_or_else(|| bail!("line {}: bad subst", sl));
                             let (o, n) = parse_arrow(r, sl);
                             fd.substs.push((w.to_string(), o, n));
@@ -369,7 +382,8 @@ fn parse_arrow(a: &str, ln: usize) -> (String, String) {
     if parts.len() != 2 || !a.starts_with('"') || !a.ends_with('"') {
         bail!("line {}: expected \"old\" => \"new\", got {}", ln, a);
     }
-    (parts[0][1..].to_string(), parts[1][..parts[1].len() - 1].to_string())
+    let un = |t: &str| t.replace("\\\"", "\"").replace("\\n", "\n");
+    (un(&parts[0][1..]), un(&parts[1][..parts[1].len() - 1]))
 }
 
 fn flush_section(fd: &mut FnDir, section: &str, buf: &[(usize, String)]) {
@@ -689,8 +703,77 @@ impl<'a, 'ast> Visit<'ast> for Rules<'a> {
         }
     }
 
+    fn visit_expr_match(&mut self, m: &'ast syn::ExprMatch) {
+        // R20: `match e { b"lit" => {A} _ => {B} }`  ->  `if bytes_eq(e, lit) {A} else {B}`
+        if m.arms.len() == 2 && m.arms[0].guard.is_none() && m.arms[1].guard.is_none() {
+            let lit0 = match &m.arms[0].pat {
+                syn::Pat::Lit(l) => match &l.lit {
+                    syn::Lit::ByteStr(b) => Some(b.value()),
+                    _ => None,
+                },
+                _ => None,
+            };
+            let wild = matches!(&m.arms[1].pat, syn::Pat::Wild(_));
+            let blocks = matches!(&*m.arms[0].body, syn::Expr::Block(_)) && matches!(&*m.arms[1].body, syn::Expr::Block(_));
+            if let (Some(v), true, true) = (lit0, wild, blocks) {
+                let whole = self.r(m.span());
+                let b0 = self.r(m.arms[0].body.span());
+                let b1 = self.r(m.arms[1].body.span());
+                let scrut = self.src_part(m.expr.span());
+                let body = v.iter().map(|b| format!("{}u8", b)).collect::<Vec<_>>().join(", ");
+                self.push("R20", (whole.0, b0.0), vec![lit("if bytes_eq("), scrut, lit(&format!(", &[{}]) ", body))]);
+                self.push("R20", (b0.1, b1.0), vec![lit(" else ")]);
+                self.push("R20", (b1.1, whole.1), vec![]);
+                self.visit_expr(&m.expr);
+                self.visit_expr(&m.arms[0].body);
+                self.visit_expr(&m.arms[1].body);
+                return;
+            }
+        }
+        visit::visit_expr_match(self, m);
+    }
+
     fn visit_expr_method_call(&mut self, mc: &'ast syn::ExprMethodCall) {
         let m = mc.method.to_string();
+        // R7: HashMap::get_mut(&k) -> hm_get_mut(&mut map, k)
+        if m == "get_mut" && mc.args.len() == 1 {
+            if let syn::Expr::Reference(rf) = &mc.args[0] {
+                let whole = self.r(mc.span());
+                let recv = self.src_part(mc.receiver.span());
+                let k = self.src_part(rf.expr.span());
+                self.push("R7", whole, vec![lit("hm_get_mut(&mut "), recv, lit(", "), k, lit(")")]);
+                self.visit_expr(&mc.receiver);
+                return;
+            }
+        }
+        // R7: X.entry(p).or_insert_with(Vec::new).extend(d) -> hm_append(&mut X, p, d)
+        if m == "extend" && mc.args.len() == 1 {
+            if let syn::Expr::MethodCall(m2) = &*mc.receiver {
+                if m2.method == "or_insert_with" {
+                    if let syn::Expr::MethodCall(m3) = &*m2.receiver {
+                        if m3.method == "entry" && m3.args.len() == 1 {
+                            let whole = self.r(mc.span());
+                            let x = self.src_part(m3.receiver.span());
+                            let pk = self.src_part(m3.args[0].span());
+                            let d = self.src_part(mc.args[0].span());
+                            self.push("R7", whole, vec![lit("hm_append(&mut "), x, lit(", "), pk, lit(", "), d, lit(")")]);
+                            self.visit_expr(&m3.receiver);
+                            return;
+                        }
+                    }
+                }
+            }
+        }
+        if m == "starts_with" && mc.args.len() == 1 {
+            // R18: slice::starts_with -> specified free function
+            let whole = self.r(mc.span());
+            let recv = self.src_part(mc.receiver.span());
+            let arg = self.src_part(mc.args[0].span());
+            self.push("R18", whole, vec![lit("starts_with("), recv, lit(", "), arg, lit(")")]);
+            self.visit_expr(&mc.receiver);
+            self.visit_expr(&mc.args[0]);
+            return;
+        }
         if m == "extend" && mc.args.len() == 1 && matches!(&*mc.receiver, syn::Expr::Field(_)) {
             let r = self.r(mc.method.span());
             self.push("R3", r, vec![lit("extend_from_slice")]);
@@ -710,6 +793,32 @@ impl<'a, 'ast> Visit<'ast> for Rules<'a> {
     }
 
     fn visit_expr_reference(&mut self, rf: &'ast syn::ExprReference) {
+        // R17b: `&<array literal / byte string>[..]` -> `&<array literal>` (same bytes; the unsizing
+        // coercion to a slice is implicit at the use site)
+        if rf.mutability.is_none() {
+            if let syn::Expr::Index(ix) = &*rf.expr {
+                let full = matches!(&*ix.index, syn::Expr::Range(rg) if rg.start.is_none() && rg.end.is_none());
+                let arr = match &*ix.expr {
+                    syn::Expr::Repeat(_) | syn::Expr::Array(_) => true,
+                    syn::Expr::Lit(l) => matches!(&l.lit, syn::Lit::ByteStr(_)),
+                    _ => false,
+                };
+                if full && arr {
+                    let whole = self.r(rf.span());
+                    match &*ix.expr {
+                        syn::Expr::Lit(syn::ExprLit { lit: syn::Lit::ByteStr(b), .. }) => {
+                            let body = b.value().iter().map(|x| format!("{}u8", x)).collect::<Vec<_>>().join(", ");
+                            self.push("R17", whole, vec![lit(&format!("&[{}]", body))]);
+                        }
+                        other => {
+                            let a = self.src_part(other.span());
+                            self.push("R17", whole, vec![lit("&"), a]);
+                        }
+                    }
+                    return;
+                }
+            }
+        }
         if rf.mutability.is_some() {
             if let syn::Expr::Index(ix) = &*rf.expr {
                 if let syn::Expr::Range(rg) = &*ix.index {
@@ -854,7 +963,17 @@ fn main() {
     let mut functions: Vec<Value> = vec![];
     let mut clauses_json: Vec<Value> = vec![];
 
+    let mut emitted: std::collections::HashSet<String> = std::collections::HashSet::new();
     for piece in &pieces {
+        // a type extracted by one prelude is not extracted again by another
+        match piece {
+            Piece::Struct(_, a) | Piece::Item(_, a) => {
+                if !emitted.insert(a.clone()) {
+                    continue;
+                }
+            }
+            _ => {}
+        }
         match piece {
             Piece::Prelude(f, ln, l) => {
                 out.mark(format!("vrs:{}:{}", f, ln));
@@ -872,7 +991,10 @@ fn main() {
                 emit_struct(src, path, &bound_map, &mut out, &mut functions);
             }
             Piece::Import(ln, ufile, anchor) => {
+                let saved = INCLUDED.with(|s| s.borrow().clone());
+                INCLUDED.with(|s| s.borrow_mut().clear());
                 let (p2, _) = parse_unit(ufile);
+                INCLUDED.with(|s| *s.borrow_mut() = saved);
                 let mut found: Option<FnDir> = None;
                 for p in p2 {
                     if let Piece::Func(fd) = p {
@@ -1274,15 +1396,18 @@ fn emit_fn(src: &Src, path: &str, fd: &FnDir, bm: &[(String, String)], unit: &st
 
     // ---- declared textual substitutions (rule RS; must match exactly once)
     for (w, o, n) in &fd.substs {
-        let (lo, hi) = if w == "sig" { (fn_start, body_open.0) } else { (body_open.0, fn_end) };
+        let all = w.ends_with('*');
+        let (lo, hi) = if w.starts_with("sig") { (fn_start, body_open.0) } else { (body_open.0, fn_end) };
         let region = &src.text[lo..hi];
         let hits: Vec<usize> = region.match_indices(o.as_str()).map(|(i, _)| i).collect();
-        if hits.len() != 1 {
+        if (all && hits.is_empty()) || (!all && hits.len() != 1) {
             lost.push(format!("subst {} \"{}\" matches {} times", w, o, hits.len()));
             continue;
         }
-        let s = lo + hits[0];
-        edits.push(Edit { start: s, end: s + o.len(), rule: "RS".into(), parts: vec![lit(n)], origin: None, prio: 0 });
+        for h in hits {
+            let s = lo + h;
+            edits.push(Edit { start: s, end: s + o.len(), rule: "RS".into(), parts: vec![lit(n)], origin: None, prio: 0 });
+        }
     }
 
     // canary sites (vacuity guard): body entry and the end of every loop body
